@@ -407,6 +407,11 @@ func (v *Verifier) setupEntry(r *Root, e *Enc) {
 	for _, rq := range ct.Requires {
 		r.assume(env.boolExpr(rq.E))
 	}
+	// axioms: defining equations of ghost functions (e.g. recursive sums); assumed globally
+	for _, ax := range v.specs.Axioms {
+		axEnv := &SpecEnv{e: e, vars: map[string]SV{}, errCtx: "axiom " + ax.Name, noLocals: true}
+		r.assume(axEnv.boolExpr(ax.Body.E))
+	}
 	if ct.Accessor {
 		r.nopanic = true
 	}
